@@ -105,7 +105,18 @@ class ExprGen:
         elif t == "bool":
             k = rng.random()
             if k < 0.4:
-                e = Logic(rng.choice(["and", "or"]), self.gen("bool", d - 1), self.gen("bool", d - 1))
+                ops = [self.gen("bool", d - 1), self.gen("bool", d - 1)]
+                if rng.random() < 0.15:
+                    # an operand that fails (or is no truth value) directly under 且 / 或: the error of an evaluated operand is
+                    # the error of the whole expression, a short-circuited one is never evaluated
+                    tt = rng.choice(["str", "bool", "null", "str"])
+                    bad = rng.choice([
+                        Logic(rng.choice(["gt", "gte", "lt", "lte"]), self.gen(tt, 0), self.gen("num", min(1, d - 1))),
+                        Logic(rng.choice(["gt", "gte", "lt", "lte"]), self.gen("num", min(1, d - 1)), self.gen(tt, 0)),
+                        Logic(rng.choice(["eq", "gt"]), Arith("/", self.gen("num", 0), Num(0.0)), self.gen("num", 0)),
+                        self.gen(rng.choice(["num", "str", "null"]), 0)])
+                    ops[rng.randrange(2)] = bad
+                e = Logic(rng.choice(["and", "or"]), ops[0], ops[1])
             elif k < 0.7:
                 e = Logic(rng.choice(["gt", "gte", "lt", "lte", "eq", "neq"]), self.gen("num", d - 1), self.gen("num", d - 1))
             else:
